@@ -1004,3 +1004,141 @@ Qed.
 Lemma http_padding_witness :
   http_server_recv 1000 6 (bytes_of "hi"%string) = HDeliver (bytes_of "hi"%string ++ [x00; x00; x00; x00]).
 Proof. vm_compute. reflexivity. Qed.
+
+(* ---- later states of the handlers ------------------------------------------------------------ *)
+(* (String is imported above: List.length is written out) *)
+
+Lemma udp_transport_ok i b : Z.of_nat (List.length b) <= 65499 ->
+  udp_transport UDP_BUFFER i b = TSent (udp_make_header (Z.of_nat (List.length b)) i ++ b).
+Proof.
+  intros H. unfold udp_transport. rewrite udp_send_ok by exact H. unfold UDP_BUFFER.
+  destruct (Nat.ltb_spec (Z.to_nat 65507 - 8) (List.length b)); [lia|reflexivity].
+Qed.
+
+Lemma udp_transport_refused i b : 65499 < Z.of_nat (List.length b) ->
+  udp_transport UDP_BUFFER i b = TRefused.
+Proof.
+  intros H. unfold udp_transport, UDP_BUFFER.
+  destruct (Nat.ltb_spec (Z.to_nat 65507 - 8) (List.length b)); [reflexivity|lia].
+Qed.
+
+Lemma udp_transport_never_panics i b : udp_transport UDP_BUFFER i b <> TPanic.
+Proof.
+  destruct (Z.le_gt_cases (Z.of_nat (List.length b)) 65499) as [H|H].
+  - rewrite udp_transport_ok by exact H. discriminate.
+  - rewrite udp_transport_refused by lia. discriminate.
+Qed.
+
+Lemma udp_fixed_error_frame buf i b :
+  (8 + List.length b <= List.length buf)%nat -> 0 <= i < 32768 -> Z.of_nat (List.length b) < 65536 ->
+  snd (udp_step_fixed Client buf (udp_make_header (Z.of_nat (List.length b)) (Z.lor i 32768) ++ b)) = DErrorFrame b.
+Proof.
+  intros Hfit Hi Hb. unfold udp_step_fixed.
+  set (hd := udp_make_header (Z.of_nat (List.length b)) (Z.lor i 32768)).
+  assert (Hhd : List.length hd = 8%nat) by reflexivity.
+  rewrite udp_read_into_fits by (rewrite app_length; lia).
+  rewrite app_length, Hhd. destruct (Nat.ltb_spec (8 + List.length b) 8) as [|_]; [lia|].
+  rewrite <- app_assoc.
+  assert (F : forall x, firstn 8 (hd ++ x) = hd) by (intros x; rewrite <- Hhd; apply firstn_app_exact).
+  assert (K : forall x, skipn 8 (hd ++ x) = x) by (intros x; rewrite <- Hhd; apply skipn_app_exact).
+  rewrite !F, !K. clear F K.
+  subst hd. rewrite udp_roundtrip_error by lia.
+  unfold is_reject.
+  replace (i =? -1) with false by (symmetry; apply Z.eqb_neq; lia). rewrite andb_false_r. cbn [andb].
+  replace (Z.of_nat (List.length b) =? Z.of_nat (8 + List.length b) - 8) with true by (symmetry; apply Z.eqb_eq; lia).
+  cbn [negb]. rewrite Nat2Z.id, copy_fresh_exact. reflexivity.
+Qed.
+
+(* the server's answer, whatever its size, reaches the caller exactly or as an error frame *)
+Lemma udp_reply_received buf i b :
+  List.length buf = UDP_BUFFER -> 0 <= i < 32768 ->
+  (Z.of_nat (List.length b) <= 65499 ->
+     snd (udp_step_fixed Client buf (udp_reply UDP_BUFFER i b)) = DDeliver i b) /\
+  (65499 < Z.of_nat (List.length b) ->
+     snd (udp_step_fixed Client buf (udp_reply UDP_BUFFER i b)) = DErrorFrame RESPONSE_TOO_LARGE).
+Proof.
+  intros Hbuf Hi. unfold udp_reply, UDP_BUFFER in *. split; intros Hb.
+  - destruct (Nat.ltb_spec (Z.to_nat 65507 - 8) (List.length b)); [lia|].
+    apply udp_fixed_wellformed; try lia; exact I.
+  - destruct (Nat.ltb_spec (Z.to_nat 65507 - 8) (List.length b)); [|lia].
+    apply udp_fixed_error_frame; try lia.
+    + rewrite Hbuf. change (List.length RESPONSE_TOO_LARGE) with 25%nat. lia.
+    + change (List.length RESPONSE_TOO_LARGE) with 25%nat. lia.
+Qed.
+
+(* the client's index masks: what goes on the wire comes back unchanged and unflagged, for
+   every value of the connection's call counter *)
+Lemma udp_client_index_sound counter length : 0 <= length < 65536 ->
+  udp_parse_header (udp_make_header length (client_index UDP_INDEX_MASK counter)) =
+  Some (length, client_index UDP_INDEX_MASK counter, true).
+Proof.
+  intros Hl. unfold client_index, UDP_INDEX_MASK. rewrite land_15bits.
+  apply udp_roundtrip; [exact Hl|]. apply Z.mod_pos_bound. lia.
+Qed.
+
+Lemma sock_client_index_sound counter length : 0 <= length < 2147483648 ->
+  sock_parse_header (sock_make_header length (client_index SOCK_INDEX_MASK counter)) =
+  Some (length, client_index SOCK_INDEX_MASK counter, true).
+Proof.
+  intros Hl. unfold client_index, SOCK_INDEX_MASK. rewrite land_31bits.
+  apply sock_roundtrip; [exact Hl|]. apply Z.mod_pos_bound. lia.
+Qed.
+
+(* a 16-bit mask on UDP is not sound: call 32768 is answered under another index *)
+Lemma udp_client_index_wide_refuted :
+  exists counter, udp_parse_header (udp_make_header 0 (client_index 65535 counter)) = Some (0, 0, false) /\
+                  client_index 65535 counter = 32768.
+Proof. exists 32768. vm_compute. split; reflexivity. Qed.
+
+Lemma limit_reader_firstn lim l : limit_reader lim l = firstn (Z.to_nat lim) l.
+Proof.
+  unfold limit_reader. destruct (Z.leb_spec (Z.of_nat (List.length l)) lim); [|reflexivity].
+  symmetry. apply firstn_all2. lia.
+Qed.
+
+(* the HTTP server as it reads now: exact or refused, for every MaxRequestLength *)
+Lemma http_limited_exact max declared actual body :
+  0 <= max -> http_limited declared actual ->
+  http_server_recv_limited max declared actual = HDeliver body -> body = actual.
+Proof.
+  intros Hmax Hl. unfold http_server_recv_limited, http_server_recv_lim.
+  rewrite limit_reader_firstn.
+  destruct (Z.gtb_spec declared max) as [|Hdm]; [discriminate|].
+  destruct (http_read_all declared (firstn (Z.to_nat (max + 1)) actual)) as [data err] eqn:E.
+  destruct err; [discriminate|].
+  destruct (Z.gtb_spec (Z.of_nat (List.length data)) max) as [|Hlen]; [discriminate|].
+  intros H; injection H as <-.
+  destruct (Z.gtb_spec declared 0) as [Hpos|Hnp].
+  - assert (Hfit : firstn (Z.to_nat (max + 1)) actual = actual).
+    { apply firstn_all2. unfold http_limited in Hl. specialize (Hl ltac:(lia)). lia. }
+    rewrite Hfit in E. exact (http_read_all_ok declared actual data Hl E).
+  - unfold http_read_all in E. destruct (Z.gtb_spec declared 0); [lia|].
+    injection E as <-. rewrite firstn_length in Hlen. apply firstn_all2. lia.
+Qed.
+
+Lemma http_limited_delivers max declared actual :
+  http_consistent declared actual = true -> declared <= max -> Z.of_nat (List.length actual) <= max ->
+  http_server_recv_limited max declared actual = HDeliver actual.
+Proof.
+  intros Hc Hd Hm. unfold http_server_recv_limited, http_server_recv_lim.
+  rewrite gtb_false_of_le by exact Hd. rewrite limit_reader_firstn.
+  rewrite firstn_all2 by lia. rewrite http_read_all_consistent by exact Hc.
+  rewrite gtb_false_of_le by exact Hm. reflexivity.
+Qed.
+
+Lemma http_limited_refuses_oversize max declared actual :
+  0 <= max -> max < Z.of_nat (List.length actual) -> declared <= 0 ->
+  http_server_recv_limited max declared actual = HTooLarge.
+Proof.
+  intros Hmax Hbig Hd. unfold http_server_recv_limited, http_server_recv_lim.
+  rewrite limit_reader_firstn.
+  destruct (Z.gtb_spec declared max); [reflexivity|].
+  unfold http_read_all. destruct (Z.gtb_spec declared 0); [lia|].
+  rewrite firstn_length.
+  destruct (Z.gtb_spec (Z.of_nat (Nat.min (Z.to_nat (max + 1)) (List.length actual))) max); [reflexivity|lia].
+Qed.
+
+(* reading through a limit of exactly MaxRequestLength hands a prefix to the service *)
+Lemma http_limit_off_by_one_refuted :
+  http_server_recv_lim 2 2 (-1) [x61; x62; x63] = HDeliver [x61; x62].
+Proof. vm_compute. reflexivity. Qed.
